@@ -91,6 +91,8 @@ Lemma K_ns2_no_cache o : ns2_no_cache o = true <-> o = None.
 Proof. unfold ns2_no_cache. destruct o; split; intros; congruence. Qed.
 Lemma K_ns2_reset_on_new_trial : ns2_reset_on_new_trial = None.
 Proof. reflexivity. Qed.
+Lemma K_ns2_reset_on_evaluate : ns2_reset_on_evaluate = None.
+Proof. reflexivity. Qed.
 
 (* DataField memo of a global-fit-parameter dependent field *)
 Lemma K_gfp_initial_value : gfp_initial_value = None.
@@ -126,7 +128,7 @@ Global Opaque tdm_sid_initial tdm_init_bump tdm_src_bump tdm_pre_bump tdm_stat_b
   i3_sid_none i3_sid_differs i3_key_differs ns2_no_cache ns2_reset_on_new_trial
   gfp_initial_value gfp_name_missing gfp_value_differs gfp_skip_calc gfp_is_srcevt gfp_store_value
   tdm_has_gfp llh_calc_gfp gfp_reset_on_new_trial
-  prof_logL0_initial prof_logL0_point prof_logL0_arg prof_log_lambda multi_nsf multi_ns2_nsf.
+  prof_logL0_initial prof_logL0_point prof_logL0_arg prof_log_lambda multi_nsf multi_ns2_nsf ns2_reset_on_evaluate.
 
 (* ------------------------------------------------------------------ part 2 *)
 Section Refine.
@@ -601,18 +603,18 @@ Proof. reflexivity. Qed.
 
 (* one evaluation: invariants kept; with a valid memo the output is the one of
    the cache-free evaluation *)
-Lemma evaluate_spec st ns x st' r t :
-  CInv st -> NoG st -> evaluate W C st ns x = (st', r, t) ->
+Lemma evaluate_body_spec st ns x st' r t :
+  CInv st -> NoG st -> s_nsg st = None -> evaluate_body W C st ns x = (st', r, t) ->
   CInv st' /\ NoG st' /\ s_cur st' = s_cur st /\ s_srcf st' = s_srcf st /\ s_view st' = s_view st /\
   (Memo st -> sstep W C (abs st) (Evaluate W ns x) = (abs st', OEval W r) /\ Memo st').
 Proof.
-  intros HI HN. unfold evaluate, sstep, abs; cbn [ss_view ss_evd ss_srcf ss_cur ss_nsg].
+  intros HI HN Hnone. unfold evaluate_body, sstep, abs; cbn [ss_view ss_evd ss_srcf ss_cur ss_nsg].
   destruct (s_view st) as [v|] eqn:Ev.
-  2:{ intros E; inversion E; subst. rewrite Ev.
+  2:{ intros E; inversion E; subst. rewrite Ev, Hnone.
       split; [exact HI|]. split; [exact HN|]. split; [reflexivity|]. split; [reflexivity|].
       split; [reflexivity|]. intros HM. split; [reflexivity | exact HM]. }
   destruct (s_evd st) as [e|] eqn:Ee.
-  2:{ intros E; inversion E; subst. rewrite Ev, Ee.
+  2:{ intros E; inversion E; subst. rewrite Ev, Ee, Hnone.
       split; [exact HI|]. split; [exact HN|]. split; [reflexivity|]. split; [reflexivity|].
       split; [reflexivity|]. intros HM. split; [reflexivity | exact HM]. }
   destruct (gfp_step W C st v ns x) as [st0 tg] eqn:Eg.
@@ -646,8 +648,35 @@ Proof.
     intros HM. destruct (HM0 HM) as [M0 Ex]. split.
     + rewrite (full_tv_eq v (s_srcf st) (s_cur st) ns x), <- Ex.
       unfold pure_nsg, pure_eval. rewrite <- R1. cbn.
-      rewrite Fv, Fsf, Fc, Fe, Fn, Gv, Gsf, Gc, Ge, Gn, Ev, Ee. reflexivity.
+      rewrite Fv, Fsf, Fc, Fe, Fn, Gv, Gsf, Gc, Ge, Gn, Ev, Ee, Hnone. reflexivity.
     + unfold Memo in *. rewrite Fgk, Fgv, Fv, Fsf, Fc. exact M0.
+Qed.
+
+(* the specification's evaluation does not read the remembered ns-gradients *)
+Lemma sstep_eval_forget st ns x :
+  sstep W C (abs (forget_nsg W st)) (Evaluate W ns x) = sstep W C (abs st) (Evaluate W ns x).
+Proof. unfold sstep, abs, forget_nsg; cbn. destruct (s_view st); [destruct (s_evd st)|]; reflexivity. Qed.
+
+Lemma forget_inv st :
+  CInv st -> NoG st ->
+  CInv (forget_nsg W st) /\ NoG (forget_nsg W st) /\ s_nsg (forget_nsg W st) = None /\
+  (Memo st -> Memo (forget_nsg W st)).
+Proof.
+  intros HI HN. unfold forget_nsg. rewrite K_ns2_reset_on_evaluate.
+  split; [destruct HI as (a & b & c & d); apply CInv_set_bkg_nsg; [unfold CInv; auto | exact d]|].
+  split; [exact HN|]. split; [reflexivity|]. intros HM. exact HM.
+Qed.
+
+Lemma evaluate_spec st ns x st' r t :
+  CInv st -> NoG st -> evaluate W C st ns x = (st', r, t) ->
+  CInv st' /\ NoG st' /\ s_cur st' = s_cur st /\ s_srcf st' = s_srcf st /\ s_view st' = s_view st /\
+  (Memo st -> sstep W C (abs st) (Evaluate W ns x) = (abs st', OEval W r) /\ Memo st').
+Proof.
+  intros HI HN Ee. unfold evaluate in Ee.
+  destruct (forget_inv st HI HN) as (I0 & N0 & Hn & HM0).
+  destruct (evaluate_body_spec _ _ _ _ _ _ I0 N0 Hn Ee) as (A & B & Ec & Es & Ev & H).
+  split; [exact A|]. split; [exact B|]. split; [exact Ec|]. split; [exact Es|]. split; [exact Ev|].
+  intros HM. rewrite <- sstep_eval_forget. apply H, HM0, HM.
 Qed.
 
 Lemma ns_grad2_spec st ns :
@@ -897,21 +926,23 @@ Proof.
   destruct (sfinal_queries mid (ss_cur sp) d None Hq) as [n' En]. rewrite En. reflexivity.
 Qed.
 
-Lemma L_ns2 sp d mid ns x tail n o :
+Lemma L_ns2 sp d mid ns x tail n :
   sconsistent sp -> forallb (is_query W) mid = true -> forallb (is_ns2 W) tail = true ->
-  pure_interp W C (cur_tvx (ss_cur sp) d ns x) (evd_tv (ss_cur sp) d) x = Ok o ->
   srun W C sp (InitTrial W d :: (mid ++ Evaluate W ns x :: tail) ++ [NsGrad2 W n]) =
   ONone W :: srun W C (trial_state (ss_cur sp) d None) (mid ++ Evaluate W ns x :: tail) ++
-    [let cur := cur_tvx (ss_cur sp) d ns x in
-     ONs2 W (Ok (g2 W (nsg_of W o (Fbkg W cur) cur (ns, x)) (evd_tv (ss_cur sp) d) n))].
+    [ONs2 W (match pure_nsg W C (cur_tvx (ss_cur sp) d ns x) (evd_tv (ss_cur sp) d) ns x with
+             | Some g => Ok (g2 W g (evd_tv (ss_cur sp) d) n)
+             | None => Err RuntimeError
+             end)].
 Proof.
-  intros Hc Hq Ht Ho. cbn [srun]. rewrite (sstep_init_trial _ d Hc). f_equal.
+  intros Hc Hq Ht. cbn [srun]. rewrite (sstep_init_trial _ d Hc). f_equal.
   rewrite srun_app. f_equal.
   destruct (sfinal_queries mid (ss_cur sp) d None Hq) as [n' En].
   rewrite sfinal_app, En.
   cbn [sfinal sstep trial_state ss_view ss_evd ss_srcf ss_cur ss_nsg fst].
-  unfold pure_nsg. fold (cur_tvx (ss_cur sp) d ns x). fold (evd_tv (ss_cur sp) d). rewrite Ho.
-  rewrite (sfinal_ns2 tail _ Ht). reflexivity.
+  fold (cur_tvx (ss_cur sp) d ns x). fold (evd_tv (ss_cur sp) d).
+  rewrite (sfinal_ns2 tail _ Ht). cbn [srun sstep ss_nsg ss_view ss_srcf].
+  destruct (pure_nsg W C (cur_tvx (ss_cur sp) d ns x) (evd_tv (ss_cur sp) d) ns x); reflexivity.
 Qed.
 
 Lemma L_ns2_none sp d tail n :
@@ -970,35 +1001,24 @@ Proof.
   rewrite (L_eval W C _ d [] ns x (sinit_consistent W C _) eq_refl). reflexivity.
 Qed.
 
-Theorem ns2_fresh s0 pre d mid ns x tail n out :
+(* the second derivative after an evaluation of the current trial — whether that
+   evaluation returned a value or raised — is the one on freshly built objects *)
+Theorem ns2_fresh s0 pre d mid ns x tail n :
   forallb (is_query W) mid = true -> forallb (is_ns2 W) tail = true ->
-  last (observations W C (init W C (src_after W s0 pre)) [InitTrial W d; Evaluate W ns x]) (ONone W)
-    = OEval W (Ok out) ->
   last (observations W C (init W C s0)
           (pre ++ InitTrial W d :: (mid ++ Evaluate W ns x :: tail) ++ [NsGrad2 W n])) (ONone W) =
   last (observations W C (init W C (src_after W s0 pre)) [InitTrial W d; Evaluate W ns x; NsGrad2 W n]) (ONone W).
 Proof.
-  intros Hq Ht Hok. destruct (after_pre s0 pre) as (_ & _ & Hc & Ec).
-  set (c := src_after W s0 pre) in *.
-  (* the fresh evaluation succeeded: the interpolation is defined *)
-  rewrite obs_fresh in Hok by reflexivity.
-  change [InitTrial W d; Evaluate W ns x] with (InitTrial W d :: [] ++ [Evaluate W ns x]) in Hok.
-  rewrite (L_eval W C _ d [] ns x (sinit_consistent W C c) eq_refl) in Hok.
-  cbn [srun app last ss_cur sinit] in Hok. unfold pure_eval in Hok.
-  destruct (pure_interp W C (cur_tvx W C c d ns x) (evd_tv W C c d) x) as [o|er] eqn:Ei;
-    [|cbn in Hok; discriminate].
+  intros Hq Ht. destruct (after_pre s0 pre) as (_ & _ & Hc & Ec).
   assert (Hw : wseq W false ((mid ++ Evaluate W ns x :: tail) ++ [NsGrad2 W n]) = true).
   { rewrite <- app_assoc. rewrite (wseq_queries W mid _ Hq). cbn.
     rewrite (wseq_queries W tail _ (ns2_is_query W tail Ht)). reflexivity. }
   rewrite obs_suffix by exact Hw.
-  assert (Ei' : pure_interp W C (cur_tvx W C (ss_cur (abs W (mfinal W C (init W C s0) pre))) d ns x)
-                  (evd_tv W C (ss_cur (abs W (mfinal W C (init W C s0) pre))) d) x = Ok o)
-    by (rewrite Ec; exact Ei).
-  rewrite (L_ns2 W C _ d mid ns x tail n o Hc Hq Ht Ei'), last_mid, Ec.
+  rewrite (L_ns2 W C _ d mid ns x tail n Hc Hq Ht), last_mid, Ec.
   rewrite obs_fresh by reflexivity.
   change [InitTrial W d; Evaluate W ns x; NsGrad2 W n]
     with (InitTrial W d :: ([] ++ Evaluate W ns x :: []) ++ [NsGrad2 W n]).
-  rewrite (L_ns2 W C _ d [] ns x [] n o (sinit_consistent W C c) eq_refl eq_refl Ei). reflexivity.
+  rewrite (L_ns2 W C _ d [] ns x [] n (sinit_consistent W C _) eq_refl eq_refl). reflexivity.
 Qed.
 
 Theorem ns2_needs_eval s0 pre d tail n :
@@ -1032,14 +1052,6 @@ Proof. intros H E. apply H. rewrite E. reflexivity. Qed.
 Definition ns2_is_ok (o : obs Wd) : bool := match o with ONs2 _ (Ok _) => true | _ => false end.
 Definition eval_elt (k : nat) (o : obs Wd) : Z := match o with OEval _ (Ok l) => nth k l 0 | _ => 0 end.
 
-Lemma ns2_after_failed_evaluate_witness :
-  let C := mkcfg 0 0 0 true false 0 false in
-  last (observations Wd C (init Wd C 7)
-          [InitTrial Wd 1; Evaluate Wd 5 250; Evaluate Wd 5 950; NsGrad2 Wd 5]) (ONone Wd)
-  <> last (observations Wd C (init Wd C 7)
-          [InitTrial Wd 1; Evaluate Wd 5 950; NsGrad2 Wd 5]) (ONone Wd).
-Proof. cbv zeta. apply (neq_by ns2_is_ok). vm_compute. discriminate. Qed.
-
 Lemma source_change_without_new_trial_witness :
   let C := mkcfg 1 0 0 true false 0 false in
   last (observations Wd C (init Wd C 7)
@@ -1056,17 +1068,6 @@ Lemma plain_gfp_memo_witness :
   <> srun Wd C (sinit Wd C 7)
     [InitTrial Wd 1; Evaluate Wd 5 250; ChangeSource Wd 8; Evaluate Wd 5 250].
 Proof. cbv zeta. apply (neq_by (fun l => eval_elt 10 (nth 3 l (ONone Wd)))). vm_compute. discriminate. Qed.
-
-Lemma ns2_after_failed_evaluate_refuted :
-  exists (W : world) (C : cfg) (s0 : src W) (d : data W) (ns x ns' x' n : Z),
-    last (observations W C (init W C s0)
-            [InitTrial W d; Evaluate W ns x; Evaluate W ns' x'; NsGrad2 W n]) (ONone W)
-    <> last (observations W C (init W C s0)
-            [InitTrial W d; Evaluate W ns' x'; NsGrad2 W n]) (ONone W).
-Proof.
-  exists Wd, (mkcfg 0 0 0 true false 0 false), 7, 1, 5, 250, 5, 950, 5.
-  exact ns2_after_failed_evaluate_witness.
-Qed.
 
 Lemma source_change_without_new_trial_refuted :
   exists (W : world) (C : cfg) (s0 s1 : src W) (d : data W) (ns x : Z),
